@@ -642,16 +642,17 @@ def gen_valid(tier, rng):
                 yield dict(kind="p2", w=weights(rng, wk, R), fs=[rint(rng, (I, R)), rint(rng, (R, R)), rint(rng, (K, R))],
                            ps=[signed_perm_cols(rng, J, R) for J in Js], wk=wk)
     if T:
-        # larger random decompositions
+        # larger random decompositions (object histories for a third of them: the enumerated boxes above carry the wrapper coverage)
+        nw = lambda: rng.random() < 0.67
         for _ in range(250):
             o = rng.randint(2, 5); s = [rng.randint(1, 4) for _ in range(o)]; R = rng.randint(1, 5)
-            yield dict(kind="cp", w=weights(rng, rng.choice(["none", "ones", "signed"]), R), fs=[rint(rng, (n, R)) for n in s])
+            yield dict(kind="cp", w=weights(rng, rng.choice(["none", "ones", "signed"]), R), fs=[rint(rng, (n, R)) for n in s], no_wrapper=nw())
             rk = [1] + [rng.randint(1, 4) for _ in range(o - 1)] + [1]
-            yield dict(kind="tt", cores=[rint(rng, (rk[i], n, rk[i + 1]), -2, 2) for i, n in enumerate(s)])
+            yield dict(kind="tt", cores=[rint(rng, (rk[i], n, rk[i + 1]), -2, 2) for i, n in enumerate(s)], no_wrapper=nw())
             r0 = rng.randint(1, 3); rk = [r0] + [rng.randint(1, 3) for _ in range(o - 1)] + [r0]
-            yield dict(kind="tr", cores=[rint(rng, (rk[i], n, rk[i + 1]), -2, 2) for i, n in enumerate(s)])
+            yield dict(kind="tr", cores=[rint(rng, (rk[i], n, rk[i + 1]), -2, 2) for i, n in enumerate(s)], no_wrapper=nw())
             rk = [rng.randint(1, 3) for _ in s]
-            yield dict(kind="tucker", core=rint(rng, rk, -2, 2), fs=[rint(rng, (n, r), -2, 2) for n, r in zip(s, rk)])
+            yield dict(kind="tucker", core=rint(rng, rk, -2, 2), fs=[rint(rng, (n, r), -2, 2) for n, r in zip(s, rk)], no_wrapper=nw())
 
 
 def base_decomps(rng):
@@ -1024,7 +1025,7 @@ def check_decomp(chk, d, rng, malformed, record=True):
         if msg:
             if phase == "reshaping":
                 ep = SETITEM_EP.get(d["kind"], ep); extra = {"setitem": "reshaping"}
-            msgs.append((route, v, msg))
+            msgs.append((route, v, msg, phase))
             if record:
                 chk.finding(ep, dict(describe(dcur), view=vname(v), backend=route[0], input_kind=route[1], phase=phase, data=payload_arrays(d), **extra), msg,
                             "C03_view_agrees_with_defining_contraction" if wf else "C03_invalid_rejected")
@@ -1170,9 +1171,9 @@ def run(chk):
     chk.cov["rule"] = ("one case = one decomposition (CP / Tucker / TT / TR / TT-matrix / PARAFAC2; integer entries in [-3,3]) observed through every view "
                        "(validate|.shape/.rank, to_tensor [masked], to_unfolded for every mode + one invalid mode, to_vec, cp_norm / wrapper .norm(), to_matrix, slice(s)) under both tenalg backends "
                        "(the einsum TT-matrix route against its own model), "
-                       "as tuple and as wrapper object, along a shuffled multi-step sequence with repeats; CP: all shapes of order 1-3 over {1,2,3} (+ sampled order 4; thorough: all) x rank {1,2,3} x "
+                       "as tuple (one CViews case) and as wrapper-object HISTORY per backend (CObj cases run through the object model: construction, shuffled multi-step views with repeats, a shape-preserving __setitem__ phase after which the views must follow the new contents, and a shape-changing one = the classified known-finding class); plus mixed-dtype variants (int64 indicator / float32 / float64, half-integer floats, one complex array); CP: all shapes of order 1-3 over {1,2,3} (+ sampled order 4; thorough: all) x rank {1,2,3} x "
                        "weights {None, ones, signed non-unit} + masked; Tucker/TT/TR: all shapes of order 1-2 + sampled order 3-4 with random ranks in {1,2,3} incl. rank > dim, skip_factor, transpose_factors; "
-                       "TT-matrix with 1-3 cores; PARAFAC2 with uneven slices; plus a malformed stream (mismatched ranks, wrong boundary ranks, open rings, wrong ndim, non-orthonormal projections, wrong counts); "
+                       "TT-matrix with 1-3 cores; PARAFAC2 with uneven slices; plus a malformed stream (mismatched ranks, wrong boundary ranks, open rings, wrong ndim, non-orthonormal and dyadic sub-orthonormal projections (validator through the model at Q), wrong counts, 1-D factors, a non-square PARAFAC2 B that must be rejected late); "
                        "evaluations = implementation calls; a case is non-trivial if some factor has more than one entry; distinct key = (family, factor shapes, weights kind, options, malformation)")
     for b in broken:
         chk.broken.append({"what": "correspondence corr:C03 shard not evaluated", "detail": b})
@@ -1180,7 +1181,8 @@ def run(chk):
         desc, d = meta[i]
         chk.disagreement("corr:C03 (Model/Factorized.v vs tensorly factorised-tensor modules)", {"decomposition": desc, "data": payload_arrays(d)})
     chk.assumptions = ["integer-valued factors with |entries| <= 4, so every float64 partial sum is exact (no rounding gap between model and code)",
-                       "the to_tensor routes are modelled for 2-D CP/Tucker factors, 3-D TT/TR cores, 4-D TT-matrix cores; other ndims only through the validators",
+                       "the to_tensor routes are modelled for 2-D (and, rank 1, 1-D) CP factors, 2-D Tucker factors, 3-D TT/TR cores, 4-D TT-matrix cores; other ndims only through the validators",
+                       "mixed-dtype / complex / half-integer factor sets are compared by VALUE after exact conversion (the model has no dtype); a complex array is split into two integer cases by linearity",
                        "NumPy reshape/moveaxis/transpose behave as modelled in Base/Tensor.v (validated by C01's primitive cases)"]
     chk.trusted += ["einsum backend: the TT-matrix route is modelled separately (np.einsum sum-of-products semantics) and proved equal to the core route on well-formed input; for the other families the einsum backend only changes tenalg functions (C02) and is compared against the same model as the core backend",
                     "PARAFAC2 orthonormality threshold 1e-5 is modelled exactly (P^T P = I) which coincides on integer-valued projections"]
@@ -1231,12 +1233,14 @@ def replay(payload):
             msgs = check_complex(None, d, rng, record=False)[3]
         else:
             msgs = check_decomp(None, d, rng, malformed, record=False)[3]
+            # the shape-changing __setitem__ phase is the classified known-finding class: it only counts when replaying such a finding
+            msgs = [m for m in msgs if len(m) < 4 or m[3] != "reshaping" or inp.get("phase") == "reshaping"]
         if msgs or inp.get("phase") in (None, "new"):
             break
     want = inp.get("view")
     hit = [m for m in msgs if want is None or vname(m[1]) == want] or msgs
-    for route, v, msg in hit[:5]:
-        print("replay:", route, vname(v), "->", msg)
+    for m in hit[:5]:
+        print("replay:", m[0], vname(m[1]), "->", m[2])
     if not hit:
         print("replay: all views agree with the defining contraction / invalid set rejected")
     return 1 if hit else 0
